@@ -132,7 +132,14 @@ F12 == UNION { { Case("F12", <<PU(x)>>, FALSE, ""), Case("F12", <<NU(x)>>, FALSE
                  Case("F12", <<SetF(<<Cls("p:" \o x), Ch(97)>>, FALSE)>>, FALSE, ""),
                  Case("F12", <<A, RepF(<<PU(x)>>, 1, -1, "plus", FALSE), B>>, FALSE, "") } : x \in UniSafe }
 
-All == F12 \cup F10 \cup F9 \cup F1 \cup F1top \cup F2 \cup F3 \cup F4 \cup F5 \cup F6 \cup F8
+\* ---- F13: nullable repetitions nested in nullable repetitions, behind an optional prefix ----
+Pre13 == { <<>>, <<Opt(<<B>>)>>, <<Star(<<B>>)>>, <<A, Opt(<<B>>)>>, <<Opt(<<C>>)>> }
+In13 == { <<Star(<<A>>)>>, <<Opt(<<A>>)>>, <<Opt(<<A>>), Opt(<<B>>)>>, <<RepF(<<A>>, 1, -1, "plus", FALSE)>>, <<AltF(<< <<A>>, <<Star(<<B>>)>> >>)>> }
+Out13(t) == { Star(t), RepF(t, 1, -1, "plus", FALSE), Opt(t), RepF(t, 2, -1, "n_", FALSE), RepF(t, 0, 2, "nm", FALSE) }
+F13 == { Case("F13", p \o <<o>>, FALSE, "") : p \in Pre13, o \in UNION { Out13(i) : i \in In13 } }
+       \cup { Case("F13", <<AltF(<< <<A>>, <<o>> >>)>>, FALSE, "") : o \in UNION { Out13(i) : i \in In13 } }
+
+All == F13 \cup F12 \cup F10 \cup F9 \cup F1 \cup F1top \cup F2 \cup F3 \cup F4 \cup F5 \cup F6 \cup F8
 
 ASSUME /\ ndJsonSerialize("gen_cases.ndjson", SetToSeq(All))
        /\ PrintT(<<"GENERATED", Cardinality(All), "F1", Cardinality(F1) + Cardinality(F1top), "F2", Cardinality(F2),
